@@ -105,6 +105,9 @@ def render(prog, name='wf', jinja=False):
         key = t.get('key', tn)
         if t.get('workflow'):
             d['workflow'] = t['workflow']
+            if t.get('workflow-expr'):
+                # the child's name is computed (the model reads 'workflow')
+                d['workflow'] = _expr(t['workflow-expr'], jinja)
             if t.get('wf-input'):
                 d['input'] = _expr_deep(t['wf-input'], jinja)
         elif kind == 'act':
@@ -147,6 +150,10 @@ def render(prog, name='wf', jinja=False):
     for sname, sprog in (prog.get('subs') or {}).items():
         sub = yaml.safe_load(render(sprog, name=sname, jinja=jinja))
         doc[sname] = sub[sname]
+    if prog.get('workbook'):
+        # a workbook: members call each other by their short names
+        wfs = {k: v for k, v in doc.items() if k != 'version'}
+        doc = {'version': '2.0', 'name': prog['workbook'], 'workflows': wfs}
     return yaml.safe_dump(doc, sort_keys=False, default_flow_style=False)
 
 
